@@ -120,6 +120,14 @@ def run_ode(case, res):
         return
     bump(res, 'ode_pairs_compared')
     worst = 0.0
+    # rows after the susceptible class is numerically exhausted are not compared (singular closures, see C06)
+    Sbase = np.asarray(oa[1], dtype=float)
+    if Sbase.ndim > 1:
+        Sbase = Sbase.reshape(-1, Sbase.shape[-1]).sum(axis=0)
+    cut = np.nonzero(~(Sbase >= 5e-3 * N))[0] if Sbase.ndim == 1 else []
+    kcut = (int(cut[0]) + 1) if len(cut) else None
+    if kcut is not None:
+        bump(res, 'singular_tail_cases_truncated')
     for pos, key in enumerate(lay):
         if pos + 1 >= len(oa):
             break
@@ -140,6 +148,8 @@ def run_ode(case, res):
         if a.shape != b.shape:
             viol(res, '%s|labels=%s|shape_differs|%s' % (tag, case['scheme'], key), {'shapes': [list(a.shape), list(b.shape)]})
             return
+        if kcut is not None and a.ndim >= 1 and a.shape[-1] == len(Sbase):
+            a, b = a[..., :kcut], b[..., :kcut]
         if not (np.all(np.isfinite(a)) and np.all(np.isfinite(b))):
             if np.all(np.isfinite(a)) != np.all(np.isfinite(b)):
                 viol(res, '%s|labels=%s|output_changes_under_relabelling|%s' % (tag, case['scheme'], key), {'why': 'non-finite values on one side only'})
